@@ -47,6 +47,7 @@ static void flowCase(Rng &rng, CaseResult &r, const std::string &profile, unsign
   GenOpts o = makeProfile(rng, profile);
   if (mask == O_C11) { o.multiRow = false; }
   Circuit c0 = genCircuit(rng, o);
+  if (profile == "faraway") randomFarTranslation(rng, c0);
   std::string pdesc;
   ColoquinteParameters params = genParams(rng, true, &pdesc);
   Features f = features(c0);
@@ -486,13 +487,33 @@ static void c10Case(Rng &rng, CaseResult &r) {
   o.maxCells = std::min(o.maxCells, 20);
   if (stage == 0) o.minRowWidth4H = true;
   Circuit c0 = genCircuit(rng, o);
+  std::string infeasibleShape;
+  if (stage >= 1 && rng.chance(0.25)) {
+    // infeasible by shape: a movable cell (not the first one) that fits no row: lower than a row, zero height or width,
+    // or wider than every row. Legalization must fail and leave every position as it was.
+    std::vector<int> mov;
+    for (int i = 0; i < c0.nbCells(); ++i) if (!c0.cellIsFixed_[i]) mov.push_back(i);
+    if (mov.size() >= 2) {
+      int cell = mov[rng.range(1, (long long)mov.size() - 1)];
+      int H = c0.rows_[0].height();
+      int kind = (int)rng.range(0, 3);
+      bool turned = turnedO(c0.cellOrientation_[cell]);
+      int &hh = turned ? c0.cellWidth_[cell] : c0.cellHeight_[cell];   // placed height
+      int &ww = turned ? c0.cellHeight_[cell] : c0.cellWidth_[cell];   // placed width
+      if (kind == 0 && H > 1) { hh = (int)rng.range(1, H - 1); infeasibleShape = "cell " + std::to_string(cell) + " lower than a row"; }
+      else if (kind == 1) { hh = 0; infeasibleShape = "cell " + std::to_string(cell) + " of zero height"; }
+      else if (kind == 2) { int mw = 0; for (auto &rw : c0.rows_) mw = std::max(mw, rw.width()); ww = mw + (int)rng.range(1, 5); hh = H; infeasibleShape = "cell " + std::to_string(cell) + " wider than every row"; }
+      else { hh = H; ww = std::max(1, ww); }
+      c0.hasCellSizeUpdate_ = false;
+    }
+  }
   std::string pdesc;
   ColoquinteParameters params = genParams(rng, true, &pdesc);
   params.global.maxNbSteps = (int)rng.range(1, 8);
   bool rejectParams = rng.chance(0.1);
   if (rejectParams) { if (stage == 0) params.global.maxNbSteps = -3; else params.legalization.orderingWidth = 5.0; }
   const char *stageName[3] = {"placeGlobal", "legalize", "placeDetailed"};
-  if (r.needSample()) r.sample = sampleJson(c0, "c10", pdesc, std::string("stage=") + stageName[stage]);
+  if (r.needSample()) r.sample = sampleJson(c0, "c10", pdesc, std::string("stage=") + stageName[stage] + (infeasibleShape.empty() ? "" : " infeasible: " + infeasibleShape));
   if (r.dumpOnly) return;
   auto call = [&](Circuit &c, const std::optional<PlacementCallback> &cb) {
     if (stage == 0) c.placeGlobal(params, cb);
@@ -515,7 +536,8 @@ static void c10Case(Rng &rng, CaseResult &r) {
     if (!busyErr.empty()) r.fail("C10:setter-accepted-during-placement", busyErr);
     std::string e = settersAccepted(c);
     if (!e.empty()) r.fail(baseOk ? "C10:setter-refused-after-return" : "C10:setter-refused-after-library-exception", e + (baseOk ? "" : " (call threw: " + baseErr + ")"));
-    if (!baseOk && stage >= 1 && !samePlacement(c0, c) && K == 0) r.fail("C10:failed-legalization-modified-placement", "x/y/orientation changed although legalization threw: " + baseErr);
+    if (!baseOk && stage >= 1 && !samePlacement(c0, c) && K == 0) r.fail("C10:failed-legalization-modified-placement", "x/y/orientation changed although legalization threw: " + baseErr + (infeasibleShape.empty() ? "" : " (" + infeasibleShape + ")"));
+    if (!infeasibleShape.empty()) r.count(baseOk ? "infeasible_shape_but_returned" : "infeasible_shape_threw");
     if (!baseOk && rejectParams && (!samePlacement(c0, c) || K != 0)) r.fail("C10:rejected-parameters-did-work", "circuit changed or callbacks ran although the parameters were rejected");
   }
   r.count(baseOk ? "base_returned" : "base_threw");
@@ -561,21 +583,21 @@ static void c10Case(Rng &rng, CaseResult &r) {
   }
   r.count("fault_points", points);
   r.nontrivial = K > 0;
-  r.sig = std::string(stageName[stage]) + ":K" + std::to_string(std::min(K, 40)) + (baseOk ? ":ok" : ":thr") + (rejectParams ? "R" : "");
+  r.sig = std::string(stageName[stage]) + ":K" + std::to_string(std::min(K, 40)) + (baseOk ? ":ok" : ":thr") + (rejectParams ? "R" : "") + (infeasibleShape.empty() ? "" : "S");
 }
 
 // ------------------------------------------------------------------------------------------------
 int main(int argc, char **argv) {
   std::vector<vf::Part> parts;
   auto add = [&](const std::string &name, vf::CaseFn fn, double budget = 20) { parts.push_back({name, fn, budget}); };
-  for (std::string prof : {"general", "rowhigh-any", "multirow", "turned", "polarity", "dense", "obstruction", "big", "crowded"}) {
+  for (std::string prof : {"general", "rowhigh-any", "multirow", "turned", "polarity", "dense", "obstruction", "big", "crowded", "faraway"}) {
     add("c01." + prof, [prof](uint64_t, Rng &rng, CaseResult &r) { flowCase(rng, r, prof, O_C01); });
     add("c02.api." + prof, [prof](uint64_t, Rng &rng, CaseResult &r) { flowCase(rng, r, prof, O_C02); });
     add("c04." + prof, [prof](uint64_t, Rng &rng, CaseResult &r) { flowCase(rng, r, prof, O_C04); });
   }
-  for (std::string prof : {"general", "nets", "polarity", "dense", "multirow", "rowhigh-any", "crowded"})
+  for (std::string prof : {"general", "nets", "polarity", "dense", "multirow", "rowhigh-any", "crowded", "faraway"})
     add("c05." + prof, [prof](uint64_t, Rng &rng, CaseResult &r) { flowCase(rng, r, prof, O_C05); });
-  for (std::string prof : {"general", "manyfixed", "dense", "obstruction", "crowded"})
+  for (std::string prof : {"general", "manyfixed", "dense", "obstruction", "crowded", "faraway"})
     add("c03.flow." + prof, [prof](uint64_t, Rng &rng, CaseResult &r) { flowCase(rng, r, prof, O_C03); });
   add("c03.global", [](uint64_t, Rng &rng, CaseResult &r) { c03Global(rng, r); });
   for (std::string prof : {"general", "rowhigh", "obstruction", "polarity", "dense", "crowded"})
